@@ -435,21 +435,63 @@ def lookup_contract(ct, rep, rule="lookup-contract"):
         rep.fail(rule, ct.mod.path.name, "Tdf.__getitem__", rets[0] if rets else gi.node, "__getitem__ does not delegate to get_block(key)")
 
 
+def absence_of_type(ct, t, pol, type_text):
+    """does the fact (t, pol) say that NO entry of the table has type `type_text`?  None when it says nothing about that"""
+    def all_of_type(e):
+        # [x for x in entries if x.type == T]
+        if isinstance(e, (ast.ListComp, ast.GeneratorExp)) and len(e.generators) == 1 and ct.is_entries(e.generators[0].iter) and len(e.generators[0].ifs) == 1 \
+                and norm(e.elt) == norm(e.generators[0].target):
+            c = e.generators[0].ifs[0]
+            v = norm(e.generators[0].target)
+            return isinstance(c, ast.Compare) and len(c.ops) == 1 and isinstance(c.ops[0], (ast.Eq, ast.Is)) and {norm(c.left), norm(c.comparators[0])} == {f"{v}.type", type_text}
+        return False
+
+    while isinstance(t, ast.UnaryOp) and isinstance(t.op, ast.Not):
+        t, pol = t.operand, not pol
+    if isinstance(t, ast.Compare) and len(t.ops) == 1 and isinstance(t.comparators[0], ast.Constant) and t.comparators[0].value is None and isinstance(t.ops[0], (ast.Is, ast.IsNot)):
+        if first_of_type(ct, t.left, type_text):
+            return pol if isinstance(t.ops[0], ast.Is) else not pol
+    if all_of_type(t):
+        return not pol  # truthiness of the list of matches
+    if isinstance(t, ast.Compare) and len(t.ops) == 1 and isinstance(t.left, ast.Call) and norm(t.left.func) == "len" and t.left.args and all_of_type(t.left.args[0]) \
+            and isinstance(t.comparators[0], ast.Constant) and t.comparators[0].value == 0:
+        if isinstance(t.ops[0], ast.Eq):
+            return pol
+        if isinstance(t.ops[0], (ast.NotEq, ast.Gt)):
+            return not pol
+    if isinstance(t, ast.Call) and norm(t.func) == "any" and len(t.args) == 1 and isinstance(t.args[0], (ast.GeneratorExp, ast.ListComp)) and len(t.args[0].generators) == 1:
+        g = t.args[0].generators[0]
+        v = norm(g.target)
+        c = t.args[0].elt if not g.ifs else None
+        if ct.is_entries(g.iter) and isinstance(c, ast.Compare) and len(c.ops) == 1 and isinstance(c.ops[0], ast.Eq) and {norm(c.left), norm(c.comparators[0])} == {f"{v}.type", type_text}:
+            return not pol
+    if isinstance(t, ast.Attribute) and isinstance(t.value, ast.Name) and t.value.id == "self" and t.attr.startswith("has_"):
+        return None
+    return None
+
+
 def replace_refusals(ct, rep, rule="replace-refusals"):
     """replace_block (and so every setter on a present type) may refuse only when the type is absent: the removal frees the
-    slot the new block needs, so capacity is never a reason."""
+    slot the new block needs, so capacity is never a reason. Path summaries: every path that ends in an escaping raise has
+    established that no entry of the block's type exists."""
+    from ..facts import flat_facts, path_returns
     ff = ct.facts("replace_block")
     fq = "Tdf.replace_block"
-    from .c07 import escaping
-    for e in ff.ev("raise"):
-        if not escaping(ff, e.node):
+    bp = ff.f.params[0]
+    n = 0
+    for pe in path_returns(ff.f.node):
+        if pe.kind != "raise":
             continue
-        tests = M.enclosing_tests(ff.f.node, e.stmt)
-        absent = any(br and norm(t).replace(" ", "").endswith("isNone") and any(norm(x) in ff.entry_names for x in ast.walk(t) if isinstance(x, ast.Name)) for t, br in tests)
+        n += 1
+        facts_ = flat_facts(pe.guards)
+        absent = any(absence_of_type(ct, t, pol, f"{bp}.type") is True for t, pol in facts_)
         if absent:
             rep.ok(rule, f"{fq}: refuses when no entry of the block's type exists", nontrivial=True)
         else:
-            rep.fail(rule, ct.mod.path.name, fq, e.stmt, f"replace_block refuses under `{' and '.join(norm(t) for t, br in tests) or 'no condition'}`: a present block can then not be replaced (e.g. on a full table) although removing it frees its slot")
+            conds = " and ".join(("" if pol else "not ") + norm(t) for t, pol in pe.guards) or "no condition"
+            rep.fail(rule, ct.mod.path.name, fq, pe.node, f"replace_block refuses under `{conds[:120]}`: a present block can then not be replaced (e.g. on a full table) although removing it frees its slot")
+    if not n:
+        rep.fail(rule, ct.mod.path.name, fq, ff.f.node, "replace_block never refuses: replacing an absent block silently adds it", construct=f"{fq} absent refusal")
 
 
 def run(prog, rep):
